@@ -149,6 +149,10 @@ func handleHelloResume(
 	if len(sessionID) > 0 && cfg.HasSessionStore {
 		if id, secret, err := cfg.GetSession(sessionID); err != nil {
 			return 0, &alert.Alert{Level: alert.Fatal, Description: alert.InternalError}, err
+		} else if id != nil && len(secret) == 0 {
+			// A stored entry without a master secret cannot authenticate anybody
+			// (the client side has the same guard): run a full handshake.
+			cfg.Log.Tracef("[handshake] stored session %x has no secret, not resuming", sessionID)
 		} else if id != nil {
 			cfg.Log.Tracef("[handshake] resume session: %x", sessionID)
 
